@@ -9,6 +9,10 @@ string formatting / float division, and so that loops have fuel):
   "<lit>".format(a, ...)    -> vp_format_("<lit>", a, ...)
   a / b ;  x /= y           -> vp_div_(a, b)
   while ...: body           -> while ...: vp_tick_(); body
+  @functools.lru_cache(..) / @cache -> @vp_cache_   (CrossHair disables the real one while tracing)
+Module-level containers (dict/list/set/defaultdict/deque) of the analysed modules are snapshotted after import and restored at
+the start of every execution, so that each explored path starts like a fresh process while state still carries between the
+calls made inside one execution.
 """
 import ast
 import importlib.abc
@@ -117,6 +121,19 @@ class Rewriter(ast.NodeTransformer):
                 )
         return node
 
+    def _cache_decorator(self, d):
+        f = d.func if isinstance(d, ast.Call) else d
+        name = f.attr if isinstance(f, ast.Attribute) else f.id if isinstance(f, ast.Name) else None
+        return name in ("lru_cache", "cache")
+
+    def visit_FunctionDef(self, node):
+        self.generic_visit(node)
+        for i, d in enumerate(node.decorator_list):
+            if self._cache_decorator(d):
+                self._site(node, "memo-decorator")
+                node.decorator_list[i] = ast.copy_location(ast.Name(id="vp_cache_", ctx=ast.Load()), d)
+        return node
+
     def visit_While(self, node):
         self.generic_visit(node)
         self._site(node, "while-fuel")
@@ -150,6 +167,7 @@ class Loader(importlib.abc.Loader):
             module.__dict__.update(stubs.PRE_INJECT)
             exec(compile(tree, self.path, "exec"), module.__dict__)
             stubs.rebind_module(module)
+            snapshot_globals(module)
         else:
             exec(compile(tree, self.path, "exec"), module.__dict__)
             if MODE[0] == "plainstub":
@@ -157,6 +175,58 @@ class Loader(importlib.abc.Loader):
 
                 module.__dict__.update(stubs.PRE_INJECT)
                 stubs.rebind_module(module)
+
+
+SNAP = {}  # module name -> {global name: (object, deep copy of its initial content)}
+
+
+def snapshot_globals(module):
+    import collections
+    import copy
+
+    snap = {}
+    for k, v in list(module.__dict__.items()):
+        if k.startswith("__") or k.startswith("vp_"):
+            continue
+        if type(v) in (dict, list, set, collections.defaultdict, collections.deque, collections.OrderedDict):
+            try:
+                snap[k] = (v, copy.deepcopy(v))
+            except Exception:
+                pass
+    SNAP[module.__name__] = (module, snap, set(module.__dict__.keys()))
+
+
+def restore_globals():
+    """module-level state of the analysed modules back to what it was right after import"""
+    import copy
+
+    for name, (module, snap, keys) in SNAP.items():
+        for k, (obj, init) in snap.items():
+            try:
+                if isinstance(obj, dict):
+                    if obj != init:
+                        obj.clear()
+                        obj.update(copy.deepcopy(init))
+                elif isinstance(obj, list):
+                    if obj != init:
+                        obj[:] = copy.deepcopy(init)
+                elif isinstance(obj, set):
+                    if obj != init:
+                        obj.clear()
+                        obj.update(init)
+                else:
+                    obj.clear()
+                    obj.extend(copy.deepcopy(init))
+            except Exception:
+                pass
+            if module.__dict__.get(k) is not obj:
+                module.__dict__[k] = obj
+        # containers created later at module level (e.g. a memo dict assigned by a function through `global`)
+        for k in list(module.__dict__.keys()):
+            if k not in keys and not k.startswith("vp_"):
+                v = module.__dict__[k]
+                if type(v) in (dict, list, set):
+                    del module.__dict__[k]
 
 
 class Finder(importlib.abc.MetaPathFinder):
